@@ -28,7 +28,7 @@ using sim::Result;
 using sim::Rng;
 
 enum { C_PART = 0, C_QLEN, C_RECYCLE };
-enum { P_LRU_SET = 0, P_LRU_MAP, P_SPLAY_SET, P_SPLAY_MULTI, P_SPLAY_SET_TRACKED, P_SPLAY_MULTI_TRACKED, P_N };
+enum { P_LRU_SET = 0, P_LRU_MAP, P_SPLAY_SET, P_SPLAY_MULTI, P_SPLAY_SET_TRACKED, P_SPLAY_MULTI_TRACKED, P_LRU_SET_HEAP, P_LRU_MAP_HEAP, P_N };
 enum { L_PUT = 0, L_TOUCH, L_TOUCH_IF, L_GET, L_GET_TOUCH, L_ERASE, L_ERASE_IF, L_EXISTS, L_POP, L_CLEAR, L_N };
 enum { S_INSERT = 0, S_ERASE, S_EXISTS, S_FIND, S_CLEAR, S_ERASE_NODE, S_N };
 const uint32_t RECYCLE[] = {0, 300, 700, 1000};
@@ -40,19 +40,41 @@ void generate(Rng& r, Workload& w, int tier) {
     int n = int(r.range(1, tier ? 80 : 50));
     for (int i = 0; i < n; ++i) {
         int64_t code;
-        if (part <= P_LRU_MAP) code = r.chance(1, 3) ? L_PUT : int64_t(r.below(L_N));
+        const bool lru = part <= P_LRU_MAP || part >= P_LRU_SET_HEAP;
+        if (lru) code = r.chance(1, 3) ? L_PUT : int64_t(r.below(L_N));
         else code = r.chance(2, 5) ? S_INSERT : int64_t(r.below(S_N));
-        if ((code == L_CLEAR && part <= P_LRU_MAP) || (code == S_CLEAR && part > P_LRU_MAP))
+        if ((code == L_CLEAR && lru) || (code == S_CLEAR && !lru))
             if (!r.chance(1, 3)) code = 0;
         w.ops.push_back({code, int64_t(r.below(KEYS)), int64_t(r.below(100))});
     }
 }
 
 // ---- LRU ----------------------------------------------------------------------
-template <bool IsMap>
+// key / value types for the LRU caches
+struct HKey {
+    sim::Tracked t;
+    HKey() : t(0, 0) {}
+    explicit HKey(int k) : t(k, k) {}
+    bool operator==(const HKey& o) const { return t.k() == o.t.k(); }
+};
+} // namespace
+namespace std {
+template <> struct hash<HKey> { size_t operator()(const HKey& k) const { return size_t(k.t.k()) * 0x9e3779b97f4a7c15ull; } };
+} // namespace std
+namespace {
+template <class T> T lru_mk(int x);
+template <> int lru_mk<int>(int x) { return x; }
+template <> HKey lru_mk<HKey>(int x) { return HKey(x); }
+inline int lru_val(int x) { return x; }
+inline int lru_val(const HKey& k) { return k.t.k(); }
+
+// K / V: int, or a heap-owning type whose move empties the source (like std::string)
+template <bool IsMap, class K, class V>
 void run_lru(const Workload& w, Result& res) {
-    using Set = tlx::LruCacheSet<int, sim::Alloc<int> >;
-    using Map = tlx::LruCacheMap<int, int, sim::Alloc<std::pair<int, int> > >;
+    using Set = tlx::LruCacheSet<K, sim::Alloc<K> >;
+    using Map = tlx::LruCacheMap<K, V, sim::Alloc<std::pair<K, V> > >;
+    auto K_ = [](int x) { return lru_mk<K>(x); };
+    auto V_ = [](int x) { return lru_mk<V>(x); };
     auto set = std::make_unique<Set>();
     auto map = std::make_unique<Map>();
     std::list<int> order;                // front = most recently put or touched
@@ -71,31 +93,31 @@ void run_lru(const Workload& w, Result& res) {
         std::string at = std::string(names[code]) + "(" + std::to_string(k) + ") at step " + std::to_string(step);
         try {
             switch (code) {
-            case L_PUT: if (IsMap) map->put(k, v); else set->put(k); to_front(k); value[k] = v; break;
-            case L_TOUCH: if (IsMap) map->touch(k); else set->touch(k); if (had) to_front(k); break;
+            case L_PUT: if (IsMap) map->put(K_(k), V_(v)); else set->put(K_(k)); to_front(k); value[k] = v; break;
+            case L_TOUCH: if (IsMap) map->touch(K_(k)); else set->touch(K_(k)); if (had) to_front(k); break;
             case L_TOUCH_IF: {
-                bool rv = IsMap ? map->touch_if_exists(k) : set->touch_if_exists(k);
+                bool rv = IsMap ? map->touch_if_exists(K_(k)) : set->touch_if_exists(K_(k));
                 if (rv != had) res.fail("lru_return", "touch_if_exists returned " + std::to_string(rv) + " for " + (had ? "present" : "absent") + " key, " + at);
                 if (had) to_front(k);
                 break;
             }
             case L_GET:
-                if (IsMap) { int got = map->get(k); if (had && got != value[k]) res.fail("lru_value", "get returned " + std::to_string(got) + " expected " + std::to_string(value[k]) + ", " + at); }
-                else { bool e = set->exists(k); if (e != had) res.fail("lru_return", "exists wrong, " + at); if (!had) threw = true; }
+                if (IsMap) { int got = lru_val(map->get(K_(k))); if (had && got != value[k]) res.fail("lru_value", "get returned " + std::to_string(got) + " expected " + std::to_string(value[k]) + ", " + at); }
+                else { bool e = set->exists(K_(k)); if (e != had) res.fail("lru_return", "exists wrong, " + at); if (!had) threw = true; }
                 break;
             case L_GET_TOUCH:
-                if (IsMap) { int got = map->get_touch(k); if (had && got != value[k]) res.fail("lru_value", "get_touch returned " + std::to_string(got) + " expected " + std::to_string(value[k]) + ", " + at); if (had) to_front(k); }
-                else { set->touch(k); if (had) to_front(k); }
+                if (IsMap) { int got = lru_val(map->get_touch(K_(k))); if (had && got != value[k]) res.fail("lru_value", "get_touch returned " + std::to_string(got) + " expected " + std::to_string(value[k]) + ", " + at); if (had) to_front(k); }
+                else { set->touch(K_(k)); if (had) to_front(k); }
                 break;
-            case L_ERASE: if (IsMap) map->erase(k); else set->erase(k); if (had) { order.remove(k); value.erase(k); } break;
+            case L_ERASE: if (IsMap) map->erase(K_(k)); else set->erase(K_(k)); if (had) { order.remove(k); value.erase(k); } break;
             case L_ERASE_IF: {
-                bool rv = IsMap ? map->erase_if_exists(k) : set->erase_if_exists(k);
+                bool rv = IsMap ? map->erase_if_exists(K_(k)) : set->erase_if_exists(K_(k));
                 if (rv != had) res.fail("lru_return", "erase_if_exists returned " + std::to_string(rv) + ", " + at);
                 if (had) { order.remove(k); value.erase(k); }
                 break;
             }
             case L_EXISTS: {
-                bool e = IsMap ? map->exists(k) : set->exists(k);
+                bool e = IsMap ? map->exists(K_(k)) : set->exists(K_(k));
                 if (e != had) res.fail("lru_return", "exists returned " + std::to_string(e) + ", " + at);
                 break;
             }
@@ -104,10 +126,10 @@ void run_lru(const Workload& w, Result& res) {
                     int lru = order.back();
                     if (IsMap) {
                         auto kv = map->pop();
-                        if (kv.first != lru || kv.second != value[lru])
-                            res.fail("lru_pop_order", "pop returned (" + std::to_string(kv.first) + "," + std::to_string(kv.second) + "), the least recently used key is " + std::to_string(lru) + ", " + at);
+                        if (lru_val(kv.first) != lru || lru_val(kv.second) != value[lru])
+                            res.fail("lru_pop_order", "pop returned (" + std::to_string(lru_val(kv.first)) + "," + std::to_string(lru_val(kv.second)) + "), the least recently used key is " + std::to_string(lru) + ", " + at);
                     } else {
-                        int got = set->pop();
+                        int got = lru_val(set->pop());
                         if (got != lru) res.fail("lru_pop_order", "pop returned " + std::to_string(got) + ", the least recently used key is " + std::to_string(lru) + ", " + at);
                     }
                     order.pop_back(); value.erase(lru);
@@ -131,7 +153,7 @@ void run_lru(const Workload& w, Result& res) {
         size_t sz = IsMap ? map->size() : set->size();
         if (sz != order.size()) res.fail("lru_size", "size()=" + std::to_string(sz) + " model " + std::to_string(order.size()) + ", " + at);
         for (int q = 0; q < KEYS && res.ok; ++q) {
-            bool e = IsMap ? map->exists(q) : set->exists(q);
+            bool e = IsMap ? map->exists(K_(q)) : set->exists(K_(q));
             if (e != present(q)) res.fail("lru_membership", "key " + std::to_string(q) + (e ? " present" : " absent") + " but the model says otherwise, " + at);
         }
         sim::rt_note(uint32_t(code), uint32_t(order.size()));
@@ -142,7 +164,7 @@ void run_lru(const Workload& w, Result& res) {
     // drain: the complete eviction order must be the model's
     while (res.ok && !order.empty()) {
         int lru = order.back();
-        int got = IsMap ? map->pop().first : set->pop();
+        int got = IsMap ? lru_val(map->pop().first) : lru_val(set->pop());
         if (got != lru) res.fail("lru_pop_order", "final drain returned " + std::to_string(got) + ", expected " + std::to_string(lru));
         order.pop_back();
     }
@@ -250,8 +272,10 @@ void execute(const Workload& w, Result& res) {
     const int part = int(sim::modn(sim::cfg_at(w, C_PART), P_N));
     sim::alloc_env().reset(size_t(sim::modn(sim::cfg_at(w, C_QLEN), 5)), RECYCLE[sim::modn(sim::cfg_at(w, C_RECYCLE), 4)]);
     switch (part) {
-    case P_LRU_SET: res.probe("lru_set"); run_lru<false>(w, res); break;
-    case P_LRU_MAP: res.probe("lru_map"); run_lru<true>(w, res); break;
+    case P_LRU_SET: res.probe("lru_set"); run_lru<false, int, int>(w, res); break;
+    case P_LRU_MAP: res.probe("lru_map"); run_lru<true, int, int>(w, res); break;
+    case P_LRU_SET_HEAP: res.probe("lru_set_heap_keys"); run_lru<false, HKey, HKey>(w, res); break;
+    case P_LRU_MAP_HEAP: res.probe("lru_map_heap_keys_and_values"); run_lru<true, HKey, HKey>(w, res); break;
     case P_SPLAY_SET: res.probe("splay_set"); run_splay<int, std::less<int>, false>(w, res); break;
     case P_SPLAY_MULTI: res.probe("splay_multiset"); run_splay<int, std::less<int>, true>(w, res); break;
     case P_SPLAY_SET_TRACKED: res.probe("splay_set_heap_keys"); run_splay<sim::Tracked, TLess, false>(w, res); break;
